@@ -200,7 +200,7 @@ func snapshotDir(root string) (string, map[string]int64) {
 			}
 		case syscall.S_IFLNK:
 			t, _ := os.Readlink(p)
-			fmt.Fprintf(&sb, " link->%s\n", t)
+			fmt.Fprintf(&sb, " symlink link=%s\n", t)
 		case syscall.S_IFREG:
 			b, err := readInto(p)
 			head := b
@@ -232,30 +232,91 @@ func snapshotMap(m fstest.MapFS) string {
 	return sb.String()
 }
 
-func diffLines(a, b string) string {
+// volatile fields of a snapshot line: their values differ between runs of the same case, so
+// the violation message names them without values (rapid needs a message that is a function
+// of the case); the values are kept in the detail text stored in the replay file.
+func parseSnap(snap string) (map[string]map[string]string, []string) {
+	m := map[string]map[string]string{}
+	var order []string
+	for _, l := range strings.Split(snap, "\n") {
+		if l == "" {
+			continue
+		}
+		toks := strings.Split(l, " ")
+		f := map[string]string{}
+		for _, t := range toks[1:] {
+			if k := strings.IndexByte(t, '='); k > 0 {
+				f[t[:k]] = t[k+1:]
+			} else {
+				f["type"] = t
+			}
+		}
+		m[toks[0]] = f
+		order = append(order, toks[0])
+	}
+	return m, order
+}
+
+// diffSnap returns a stable description (entry names and the names of the fields that
+// changed) and the detailed before/after lines.
+func diffSnap(a, b string) (stable, detail string) {
+	ma, oa := parseSnap(a)
+	mb, ob := parseSnap(b)
+	var st []string
+	for _, n := range oa {
+		fa := ma[n]
+		fb, ok := mb[n]
+		if !ok {
+			st = append(st, n+": removed")
+			continue
+		}
+		var ch []string
+		for _, k := range []string{"type", "mode", "ino", "nlink", "uid", "size", "read", "hash", "sha", "head", "link", "mtime", "ctime", "ptr", "err"} {
+			if fa[k] != fb[k] {
+				switch k {
+				case "hash", "sha", "head", "read":
+					k = "content"
+				}
+				if len(ch) == 0 || ch[len(ch)-1] != k {
+					ch = append(ch, k)
+				}
+			}
+		}
+		if len(ch) > 0 {
+			st = append(st, n+": changed "+strings.Join(ch, ","))
+		}
+	}
+	for _, n := range ob {
+		if _, ok := ma[n]; !ok {
+			st = append(st, n+": created")
+		}
+	}
 	la, lb := strings.Split(a, "\n"), strings.Split(b, "\n")
-	ma, mb := map[string]bool{}, map[string]bool{}
+	sa, sb := map[string]bool{}, map[string]bool{}
 	for _, l := range la {
-		ma[l] = true
+		sa[l] = true
 	}
 	for _, l := range lb {
-		mb[l] = true
+		sb[l] = true
 	}
 	var out []string
 	for _, l := range la {
-		if !mb[l] {
+		if !sb[l] {
 			out = append(out, "  before: "+l)
 		}
 	}
 	for _, l := range lb {
-		if !ma[l] {
+		if !sa[l] {
 			out = append(out, "  after:  "+l)
 		}
 	}
-	if len(out) > 12 {
-		out = append(out[:12], "  ...")
+	if len(out) > 16 {
+		out = append(out[:16], "  ...")
 	}
-	return strings.Join(out, "\n")
+	if len(st) > 8 {
+		st = append(st[:8], "...")
+	}
+	return strings.Join(st, "; "), strings.Join(out, "\n")
 }
 
 // ---- static knowledge of the tree for the non-triviality rule ----
@@ -334,6 +395,13 @@ type caseT struct {
 	Mount  string `json:"mount"`
 	Engine string `json:"engine"`
 	Steps  []step `json:"steps"`
+	// filled in when a violation is written out; ignored by replay
+	Observed []string `json:"observed,omitempty"`
+}
+
+func (c caseT) withObserved(res result) caseT {
+	c.Observed = append(append([]string{}, res.trace...), strings.Split(res.detail, "\n")...)
+	return c
 }
 
 func (s step) String() string {
@@ -487,18 +555,24 @@ func (w *world) restore() error {
 }
 
 // checkInvariant compares the tree with the snapshot; "" when unchanged.
-func (w *world) checkInvariant() string {
+func (w *world) checkInvariant() (stable, detail string) {
 	now, at := w.takeSnap()
 	if now != w.snap {
-		return "the read-only mounted tree changed:\n" + diffLines(w.snap, now)
+		st, d := diffSnap(w.snap, now)
+		return "the read-only mounted tree changed (" + st + ")", d
 	}
-	for rel, a := range at {
-		if w.guestAtimes[a] && w.atimes[rel] != a {
-			return fmt.Sprintf("atime of %s was set to the guest-requested value %d", rel, a)
+	rels := make([]string, 0, len(at))
+	for rel := range at {
+		rels = append(rels, rel)
+	}
+	sort.Strings(rels)
+	for _, rel := range rels {
+		if a := at[rel]; w.guestAtimes[a] && w.atimes[rel] != a {
+			return fmt.Sprintf("atime of %s was set to the guest-requested value %d", rel, a), ""
 		}
 	}
 	w.atimes = at
-	return ""
+	return "", ""
 }
 
 // memory layout of the proxy guest (one page)
@@ -754,7 +828,8 @@ func (w *world) closeAll() {
 }
 
 type result struct {
-	msg     string // "" = held
+	msg     string // "" = held; a function of the case only (no inode numbers, times)
+	detail  string // before/after snapshot lines
 	culprit int    // index of the step after which the violation was seen (-1: final read)
 	trace   []string
 }
@@ -769,8 +844,9 @@ func runCase(w *world, steps []step, every bool) result {
 		r := w.apply(s)
 		res.trace = append(res.trace, s.String()+" = "+r)
 		if every || i == 0 || i == len(steps)-1 {
-			if msg := w.checkInvariant(); msg != "" {
-				res.msg = fmt.Sprintf("mount %s: after step %d %s = %s\n%s", w.mount, i, s, r, msg)
+			if msg, detail := w.checkInvariant(); msg != "" {
+				res.msg = fmt.Sprintf("mount %s: after step %d %s = %s: %s", w.mount, i, s, r, msg)
+				res.detail = detail
 				res.culprit = i
 				break
 			}
@@ -779,14 +855,15 @@ func runCase(w *world, steps []step, every bool) result {
 	if res.msg == "" {
 		if msg := w.readKnown(); msg != "" {
 			res.msg = fmt.Sprintf("mount %s: after %d steps: %s", w.mount, len(steps), msg)
-		} else if msg := w.checkInvariant(); msg != "" {
+		} else if msg, detail := w.checkInvariant(); msg != "" {
 			res.msg = fmt.Sprintf("mount %s: after the final read: %s", w.mount, msg)
+			res.detail = detail
 		}
 	}
 	w.closeAll()
 	if res.msg != "" {
 		if err := w.restore(); err != nil {
-			res.msg += "\n(harness: restore failed: " + err.Error() + ")"
+			res.detail += "\n(harness: restore failed: " + err.Error() + ")"
 		}
 	} else if now, _ := snapshotDir(w.rwDir); now != w.rwSnap {
 		// the writable mount may change; put it back so that cases stay independent
@@ -905,11 +982,11 @@ func TestOpenCrossProduct(t *testing.T) {
 			}
 		}
 		if known {
-			if evid.Finding(findingCreatTrunc, "open-cross-product", c, "%s", res.msg) {
+			if evid.Finding(findingCreatTrunc, "open-cross-product", c.withObserved(res), "%s", res.msg) {
 				t.Errorf("%s", res.msg)
 			}
 		} else {
-			evid.Violation("open-cross-product", c, "%s", res.msg)
+			evid.Violation("open-cross-product", c.withObserved(res), "%s", res.msg)
 			t.Errorf("%s", res.msg)
 		}
 	}
@@ -1113,7 +1190,7 @@ func TestSequences(t *testing.T) {
 			if res.culprit >= 0 { // later steps were not executed
 				c.Steps = c.Steps[:res.culprit+1]
 			}
-			evid.Fail(t, c, "%s\ntrace:\n  %s", res.msg, strings.Join(res.trace, "\n  "))
+			evid.Fail(t, c.withObserved(res), "%s", res.msg)
 		}
 		lbls := []string{"seq-" + c.Mount, "seq-" + c.Engine}
 		for k := range w.labels {
@@ -1162,7 +1239,7 @@ func TestKnownInput(t *testing.T) {
 		w.close()
 		evid.Case(seqKey(c), true, "known-input")
 		if res.msg != "" {
-			if evid.Finding(findingCreatTrunc, "known-input", c, "%s", res.msg) {
+			if evid.Finding(findingCreatTrunc, "known-input", c.withObserved(res), "%s", res.msg) {
 				t.Errorf("%s", res.msg)
 			}
 		}
@@ -1191,7 +1268,7 @@ func TestReplay(t *testing.T) {
 		t.Log(l)
 	}
 	if res.msg != "" {
-		evid.Violation("replay", c, "%s", res.msg)
-		t.Fatal(res.msg)
+		evid.Violation("replay", c.withObserved(res), "%s", res.msg)
+		t.Fatal(res.msg + "\n" + res.detail)
 	}
 }
